@@ -10,7 +10,7 @@
    that is no request at all, wrong number of messages, full_duplex flag against the stream type). *)
 EXTENDS EchoCases, Json, TLC
 
-CONSTANTS MutKinds      \* subset of {"none", "mtSame", "mtOther", "mtOtherNoDef", "mtNon", "mtLater"}
+CONSTANTS MutKinds      \* subset of {"none", "mtSame", "mtOther", "mtOtherNoDef", "mtNon", "mtLater", "noRequest"}
 
 VARIABLES t, ph
 gvars == <<t, ph>>
@@ -34,8 +34,9 @@ Mutate(c, mk) ==
     [] mk = "mtOtherNoDef" -> [c EXCEPT !.reqs[1] = Req(MethodMsg(CrossSt(c.st)), NoneV, FALSE)]
     [] mk = "mtNon"        -> [c EXCEPT !.reqs[1] = Req("other", NoneV, FALSE)]
     [] mk = "mtLater"      -> [c EXCEPT !.reqs[Len(c.reqs)] = Req("other", NoneV, FALSE)]
+    [] mk = "noRequest"    -> [c EXCEPT !.st = "norequest", !.reqs = <<>>]     \* the entry has no request field at all
     [] OTHER               -> c
-Applicable(c, mk) == mk = "none" \/ (Len(c.reqs) >= 1 /\ (mk = "mtLater" => Len(c.reqs) >= 2))
+Applicable(c, mk) == mk \in {"none", "noRequest"} \/ (Len(c.reqs) >= 1 /\ (mk = "mtLater" => Len(c.reqs) >= 2))
 
 Stop == /\ ph = "build" /\ MayStop(t)
         /\ \E mk \in MutKinds : Applicable(t, mk) /\ t' = Mutate(t, mk)
